@@ -203,7 +203,7 @@ impl Property for C18 {
     }
     fn budget(tier: Tier) -> u64 {
         match tier {
-            Tier::Quick => 120_000,
+            Tier::Quick => 300_000,
             Tier::Thorough => 3_000_000,
         }
     }
